@@ -57,8 +57,48 @@ func goDescribe(t, f cty.Type) (string, bool) {
 	return "", false
 }
 
+// orderDependent: MismatchMessage(got, want) reports "the first offending
+// attribute" while ranging over a Go map, so with two or more offenders its text
+// depends on the map iteration order (the model reports the first in name order).
+func orderDependent(got, want cty.Type) bool {
+	bad := func(g, w cty.Type) bool { return !g.Equals(w) && convert.GetConversionUnsafe(g, w) == nil }
+	switch {
+	case got.IsObjectType() && (want.IsMapType() || want.IsObjectType()):
+		var offenders []cty.Type
+		var wants []cty.Type
+		for name, g := range got.AttributeTypes() {
+			var w cty.Type
+			if want.IsMapType() {
+				w = want.ElementType()
+			} else if want.HasAttribute(name) {
+				w = want.AttributeType(name)
+			} else {
+				continue
+			}
+			if bad(g, w) {
+				offenders, wants = append(offenders, g), append(wants, w)
+			}
+		}
+		if len(offenders) > 1 {
+			return true
+		}
+		if len(offenders) == 1 {
+			return orderDependent(offenders[0], wants[0])
+		}
+	case got.IsTupleType() && (want.IsListType() || want.IsSetType()):
+		for _, g := range got.TupleElementTypes() {
+			if bad(g, want.ElementType()) {
+				return orderDependent(g, want.ElementType())
+			}
+		}
+	case got.IsCollectionType() && want.IsCollectionType():
+		return orderDependent(got.ElementType(), want.ElementType())
+	}
+	return false
+}
+
 func stableMismatch(got, want cty.Type) (string, bool) {
-	if got.Equals(want) || convert.GetConversionUnsafe(got, want) != nil {
+	if got.Equals(want) || convert.GetConversionUnsafe(got, want) != nil || orderDependent(got, want) {
 		return "", false
 	}
 	m := convert.MismatchMessage(got, want)
